@@ -88,8 +88,8 @@ class Reject(Exception):
 # =====================================================================================
 # IR -> template text + section table
 # =====================================================================================
-SIG_DECL = {"": "", "a": "a", "ab": "a, b='k'", "star": "*args, **kw"}
-SIG_SCOPE = {"": [], "a": ["a"], "ab": ["a", "b"], "star": ["args[0]", "kw['b']"]}
+SIG_DECL = {"": "", "a": "a", "ab": "a, b='k'", "star": "*args, **kw", "kwo": "a, *rest, b='k'"}
+SIG_SCOPE = {"": [], "a": ["a"], "ab": ["a", "b"], "star": ["args[0]", "kw['b']"], "kwo": ["a", "b", "str(len(rest))"]}
 
 
 def _argtext(a):
@@ -298,6 +298,11 @@ def case_strategy(backends):
         if sig == "ab":
             kw = {"b": argexpr(draw, scope)} if draw(st.booleans()) else {}
             return ["call", name, [argexpr(draw, scope)], kw]
+        if sig == "kwo":
+            # a keyword-only parameter with a default behind *rest, given a value of its own or not
+            extra = [argexpr(draw, scope) for _ in range(draw(st.integers(0, 2)))]
+            kw = {"b": argexpr(draw, scope)} if draw(st.integers(0, 2)) else {}
+            return ["call", name, [argexpr(draw, scope)] + extra, kw]
         return ["call", name, [argexpr(draw, scope)], {"b": argexpr(draw, scope)}]
 
     def gen_key(draw, st_, scope, ctr, tid, pargs=False):
@@ -316,7 +321,7 @@ def case_strategy(backends):
         return parts
 
     def gen_section(draw, backend, kind, name, env, ctr, tid):
-        sig = draw(st.sampled_from(["", "a", "a", "ab", "star"])) if kind in ("def", "ndef") else ""
+        sig = draw(st.sampled_from(["", "a", "a", "ab", "star", "kwo"])) if kind in ("def", "ndef") else ""
         cached = draw(st.sampled_from([True, True, False]))
         own = SIG_SCOPE[sig]
         if kind in ("def", "block"):
@@ -1158,12 +1163,74 @@ def _probe_inherited():
     return None
 
 
+KEY_NAMESPACE = "namespace-section-cache-owner"
+NAMESPACE_TEXTS = {
+    "widgets": ('<%def name="badge()" cached="True"><% tick("widgets.badge") %>widget badge</%def>'
+                '<%def name="tile()" cached="True" cache_key="shared"><% tick("widgets.tile") %>widget tile</%def>'),
+    "page": ('<%namespace name="w" file="WIDGETS"/><%namespace file="WIDGETS" import="tile"/>'
+             '<%def name="badge()" cached="True"><% tick("page.badge") %>page badge</%def>'
+             '<%def name="mine()" cached="True" cache_key="shared"><% tick("page.mine") %>page mine</%def>'
+             "own:${badge()}|theirs:${w.badge()}|imported:${tile()}|mine:${mine()}"),
+}
+
+
+def _probe_namespace():
+    """A cached def of another template reached through <%namespace file=..> (qualified or imported) belongs to THAT
+    template's cache: never mixed up with a section of the calling template that has the same name or cache_key,
+    invalidated through its own template's cache.  Expectations by construction."""
+    core.setup_repo()
+    _register()
+    from mako.lookup import TemplateLookup
+
+    tag = "/vf17n_%d_%d" % (os.getpid(), next(_uniq))
+    lk = TemplateLookup(cache_impl="vf17rec")
+    store, log, ticks = {}, [], []
+    T = {}
+    for name, text in NAMESPACE_TEXTS.items():
+        lk.put_string("%s/%s.html" % (tag, name), text.replace("WIDGETS", tag + "/widgets.html"))
+    for name in NAMESPACE_TEXTS:
+        T[name] = lk.get_template("%s/%s.html" % (tag, name))
+        T[name]._vf_store, T[name]._vf_log = store, log
+    case = {"probe": KEY_NAMESPACE, "templates": NAMESPACE_TEXTS}
+    full = "own:page badge|theirs:widget badge|imported:widget tile|mine:page mine"
+    render = lambda: T["page"].render_unicode(tick=ticks.append)
+    steps = [
+        ("render page", render, full, ["page.badge", "widgets.badge", "widgets.tile", "page.mine"]),
+        ("render page again", render, full, []),
+        ("widgets.cache.invalidate_def('badge'); render page", lambda: (T["widgets"].cache.invalidate_def("badge"), render())[1], full, ["widgets.badge"]),
+        ("page.cache.invalidate_def('badge'); render page", lambda: (T["page"].cache.invalidate_def("badge"), render())[1], full, ["page.badge"]),
+        ("widgets.cache.invalidate('shared', __M_defname='tile'); render page",
+         lambda: (T["widgets"].cache.invalidate("shared", __M_defname="tile"), render())[1], full, ["widgets.tile"]),
+        ("page.cache.invalidate('shared', __M_defname='mine'); render page",
+         lambda: (T["page"].cache.invalidate("shared", __M_defname="mine"), render())[1], full, ["page.mine"]),
+        ("widgets.cache_enabled=False; render page", lambda: (setattr(T["widgets"], "cache_enabled", False), render())[1], full,
+         ["widgets.badge", "widgets.tile"]),
+    ]
+    done = []
+    for what, fn, exp_out, exp_ticks in steps:
+        del ticks[:]
+        done.append(what)
+        try:
+            out = fn()
+        except Exception as e:  # noqa: BLE001
+            return Failure(case, "after %r: raised %s: %s" % (done, type(e).__name__, e), KEY_NAMESPACE + ":raised")
+        if out != exp_out or ticks != exp_ticks:
+            return Failure(case, "after %r: expected output %r with bodies executed %r, observed %r with %r (texts: %r)"
+                           % (done, exp_out, exp_ticks, out, list(ticks), NAMESPACE_TEXTS), KEY_NAMESPACE)
+    ids = sorted({k[0] for k in store})
+    if len(ids) != 2:
+        return Failure(case, "the backend was reached under the cache ids %r; two templates own cached sections" % ids, KEY_NAMESPACE)
+    return None
+
+
 def run_probe(name, case=None):
     """-> Failure | None.  A probe fails with its own key only if its control history passes."""
     if name == KEY_NESTED_BUF:
         return _probe_nested_buffered()
     if name == KEY_INHERITED:
         return _probe_inherited()
+    if name == KEY_NAMESPACE:
+        return _probe_namespace()
     pc, ctl = _probe_cases()[name]
     case = case or dict(pc, probe=name)
     body = {k: v for k, v in case.items() if k != "probe"}
@@ -1273,7 +1340,7 @@ def shard_search(task):
     return ev, fails
 
 
-PROBES = (KEY_COLLISION, KEY_BEAKER_SET, KEY_EARLY_INV, KEY_NESTED_BUF, KEY_INHERITED)
+PROBES = (KEY_COLLISION, KEY_BEAKER_SET, KEY_EARLY_INV, KEY_NESTED_BUF, KEY_INHERITED, KEY_NAMESPACE)
 
 
 def run(ctx):
